@@ -12,12 +12,17 @@ Shape::Shape(std::initializer_list<std::uint32_t> dims, std::uint32_t batch)
         "Exceeds dimension depth limit at Shape::Shape()."
         " depth: " << depth_ << " > MAX_DEPTH: " << MAX_DEPTH);
   }
+  std::uint64_t volume = 1;
   for (const std::uint32_t d : dims) {
     dims_[depth_++] = d;
-    volume_ *= d;
+    volume *= d;
+    if (volume > 0xffffffffull) {
+      PRIMITIV_THROW_ERROR("Too many elements in the shape at Shape::Shape().");
+    }
   }
+  volume_ = static_cast<std::uint32_t>(volume);
   while (depth_ > 0 && dims_[depth_ - 1] == 1) --depth_;
-  if (volume_ == 0 || batch_ == 0) {
+  if (volume_ == 0 || batch_ == 0 || volume * batch_ > 0xffffffffull) {
     PRIMITIV_THROW_ERROR("Invalid shape: " << to_string());
   }
 }
@@ -29,12 +34,17 @@ Shape::Shape(const std::vector<std::uint32_t> &dims, std::uint32_t batch)
         "Exceeds dimension depth limit at Shape::Shape()."
         " depth: " << depth_ << " > MAX_DEPTH: " << MAX_DEPTH);
   }
+  std::uint64_t volume = 1;
   for (const std::uint32_t d : dims) {
     dims_[depth_++] = d;
-    volume_ *= d;
+    volume *= d;
+    if (volume > 0xffffffffull) {
+      PRIMITIV_THROW_ERROR("Too many elements in the shape at Shape::Shape().");
+    }
   }
+  volume_ = static_cast<std::uint32_t>(volume);
   while (depth_ > 0 && dims_[depth_ - 1] == 1) --depth_;
-  if (volume_ == 0 || batch_ == 0) {
+  if (volume_ == 0 || batch_ == 0 || volume * batch_ > 0xffffffffull) {
     PRIMITIV_THROW_ERROR("Invalid shape: " << to_string());
   }
 }
@@ -93,6 +103,13 @@ void Shape::update_dim(std::uint32_t dim, std::uint32_t m) {
       " dim: " << dim << " >= MAX_DEPTH: " << MAX_DEPTH);
   }
   if (m == 0) PRIMITIV_THROW_ERROR("Could not set each dimension to 0.");
+  const std::uint64_t new_volume
+    = static_cast<std::uint64_t>(volume_ / (*this)[dim]) * m;
+  if (new_volume > 0xffffffffull || new_volume * batch_ > 0xffffffffull) {
+    PRIMITIV_THROW_ERROR(
+      "Too many elements in the shape at Shape::update_dim()."
+      " dim: " << dim << ", m: " << m);
+  }
   if (dim >= depth_) {
     std::uint32_t new_depth = dim + 1;
     for (std::uint32_t i = depth_; i < new_depth; ++i) dims_[i] = 1;
@@ -105,6 +122,11 @@ void Shape::update_dim(std::uint32_t dim, std::uint32_t m) {
 
 void Shape::update_batch(std::uint32_t batch) {
   if (batch == 0) PRIMITIV_THROW_ERROR("Could not set the batch size to 0.");
+  if (static_cast<std::uint64_t>(volume_) * batch > 0xffffffffull) {
+    PRIMITIV_THROW_ERROR(
+      "Too many elements in the shape at Shape::update_batch()."
+      " batch: " << batch);
+  }
   batch_ = batch;
 }
 
